@@ -1,4 +1,6 @@
 import Dalek.Model.ConstCheck
+import Dalek.Proofs.CurveOrder.Structure
+import Dalek.Proofs.Bridge.FastEdwards
 /-!
 # C12 — every precomputed constant and table entry equals its definition
 
@@ -247,5 +249,55 @@ theorem tables_overlap_ok : checkTablesOverlap = true := by decide +kernel
 
 /-- every check that `Dalek.Model.ConstCheck.reportC12` (the list the driver prints) names succeeds -/
 theorem reportC12_all_ok : reportC12.all (fun nb => nb.2) = true := by decide +kernel
+
+/-! ## `EIGHT_TORSION` is ALL of the 8-torsion
+
+`Dalek/Proofs/CurveOrder.lean` proves that the group `Ed` of the curve (`Dalek.Bridge.Ed`, a commutative group by
+`Proofs/EdwardsGroup.lean`) has exactly `8ℓ` points, and `Dalek/Proofs/CurveOrder/Structure.lean` that its 8-torsion
+is cyclic of order 8, generated by the point denoted by `eightTorsion[1]`.  `Rep p Q` (`Proofs/Bridge/Edwards.lean`)
+says that the specification point `p` denotes `Q`; `ERep e Q` (`Proofs/Bridge/FastEdwards.lean`) that the
+extended-coordinates point `e` does. -/
+
+/-- **Every point `Q` of the curve with `8·Q = 0` is one of the eight `EIGHT_TORSION` constants**: for some
+`i < 8`, `Q` is denoted by the specification's `eightTorsion[i]`, by the u64 literal `EIGHT_TORSION[i]` and by the
+u32 literal `EIGHT_TORSION[i]`; and there are exactly 8 such points. -/
+theorem EIGHT_TORSION_is_all_of_E8 :
+    (∀ Q : Dalek.Bridge.Ed, 8 • Q = 0 →
+      ∃ i, i < 8 ∧ Dalek.Bridge.Rep (eightTorsion.getD i Pt.zero) Q ∧
+        Dalek.Bridge.ERep (decodePt val51 (U64.EIGHT_TORSION.getD i [])) Q ∧
+        Dalek.Bridge.ERep (decodePt val26 (U32.EIGHT_TORSION.getD i [])) Q) ∧
+    Nat.card {Q : Dalek.Bridge.Ed // 8 • Q = 0} = 8 := by
+  refine ⟨?_, Dalek.CurveOrder.card_small_order⟩
+  intro Q h8
+  obtain ⟨i, hi, hr⟩ := Dalek.CurveOrder.torsion8_rep h8
+  have key : ∀ (e : EPt) (s : Pt), e.X = s.x % P → e.Y = s.y % P → e.Z = 1 → e.T = fmul s.x s.y →
+      Dalek.Bridge.Rep s Q → Dalek.Bridge.ERep e Q := by
+    intro e s hX hY hZ hT hs
+    have : e = EPt.ofAffine s := by
+      cases e; simp only at hX hY hZ hT; subst hX hY hZ hT; rfl
+    rw [this]; exact Dalek.Bridge.erep_ofAffine hs
+  have h64 : ∀ i, i < 8 →
+      (decodePt val51 (U64.EIGHT_TORSION.getD i [])).X = (eightTorsion.getD i Pt.zero).x % P ∧
+      (decodePt val51 (U64.EIGHT_TORSION.getD i [])).Y = (eightTorsion.getD i Pt.zero).y % P ∧
+      (decodePt val51 (U64.EIGHT_TORSION.getD i [])).Z = 1 ∧
+      (decodePt val51 (U64.EIGHT_TORSION.getD i [])).T
+        = fmul (eightTorsion.getD i Pt.zero).x (eightTorsion.getD i Pt.zero).y := by decide +kernel
+  have h32 : ∀ i, i < 8 →
+      (decodePt val26 (U32.EIGHT_TORSION.getD i [])).X = (eightTorsion.getD i Pt.zero).x % P ∧
+      (decodePt val26 (U32.EIGHT_TORSION.getD i [])).Y = (eightTorsion.getD i Pt.zero).y % P ∧
+      (decodePt val26 (U32.EIGHT_TORSION.getD i [])).Z = 1 ∧
+      (decodePt val26 (U32.EIGHT_TORSION.getD i [])).T
+        = fmul (eightTorsion.getD i Pt.zero).x (eightTorsion.getD i Pt.zero).y := by decide +kernel
+  obtain ⟨a1, a2, a3, a4⟩ := h64 i hi
+  obtain ⟨b1, b2, b3, b4⟩ := h32 i hi
+  exact ⟨i, hi, hr, key _ _ a1 a2 a3 a4 hr, key _ _ b1 b2 b3 b4 hr⟩
+
+/-- conversely, each of the eight constants has small order (also part of `EIGHT_TORSION_ok`) -/
+theorem EIGHT_TORSION_small_order {i : Nat} (hi : i < 8) {Q : Dalek.Bridge.Ed}
+    (h : Dalek.Bridge.Rep (eightTorsion.getD i Pt.zero) Q) : 8 • Q = 0 :=
+  Dalek.CurveOrder.eightTorsion_small_order hi h
+
+/-- info: 'Dalek.Props.C12.EIGHT_TORSION_is_all_of_E8' depends on axioms: [propext, Classical.choice, Quot.sound] -/
+#guard_msgs in #print axioms EIGHT_TORSION_is_all_of_E8
 
 end Dalek.Props.C12
